@@ -67,7 +67,8 @@ DIRECTED = [
     "functie f(n) { 10 - n } f(3)", "functie f(n) { n - 10 } f(3)", "functie f(n) { 10 / n } f(3)", "functie f(n) { 10 % n } f(3)",
     "functie f(n) { 10 < n } f(3)", "functie f(n) { 10 >= n } f(10)", "functie f(n) { [n + 1, 1 + n, n * 2, 2 * n, n == 2, 2 == n, n != 2, 2 != n] } f(2)",
     "functie f(c) { stel s = \"abc\"; stel r = s[0]; s[0] = c; r } f(\"x\"); f(\"y\")",
-    "stel a = \"abc\"; stel b = \"abc\"; a[0] = \"x\"; b", "functie f(x) { x + 1.5 } f(1.5) + 1.5",
+    "stel a = \"abc\"; stel b = \"abc\"; a[0] = \"x\"; b", "stel i = 0; zolang i < 3 { i += 1; stel s = \"abc\"; s[0] = \"\"; print(\"{}\", s) } \"abc\"",
+    "stel a = \"kat\"; stel b = [\"kat\"]; stel c = b[0]; c[1] = \"o\"; [a, b, \"kat\"]", "functie f(x) { x + 1.5 } f(1.5) + 1.5",
     "functie f(n) { n + 1152921504606846975 } f(1)", "functie f(n) { 1152921504606846975 + n } f(1)", "functie f(n) { n / 0 } f(1)", "functie f(n) { 0 / n } f(0)",
     "functie f(s) { s + 1 } f(\"a\")", "functie f(s) { 1 < s } f(nee)",
 ]
